@@ -381,6 +381,52 @@ func (s *tcpSys) Do(a map[string]any, wait func()) ([]Obs, error) {
 				s.held(toInt(a["id"]), s.curPay)
 			}
 		}
+	case "Duplex":
+		// both directions carry 256 KiB at the same time while neither receiver reads (64 KiB windows):
+		// the relay's two copy loops stall in the middle of a write and must not disturb each other
+		id := toInt(a["id"])
+		de, pe := s.dataEnd[id], s.peerEnd[id]
+		if de == nil || pe == nil {
+			return nil, fmt.Errorf("Duplex on connection %d without both ends", id)
+		}
+		big := func(tag string) []byte {
+			out := make([]byte, 0, 256<<10)
+			for c := 0; len(out) < 256<<10; c++ {
+				x := sha256.Sum256([]byte(fmt.Sprintf("tcpbig/%d/%d/%s/%d", s.seed, s.step, tag, c)))
+				out = append(out, x[:]...)
+			}
+
+			return out
+		}
+		c2p, p2c := big("c2p"), big("p2c")
+		de.SetLimit(64 << 10)
+		pe.SetLimit(64 << 10)
+		var gotP, gotC []byte
+		for off := 0; off < len(c2p); off += 32 << 10 { // interleaved submission, nobody reads yet
+			_, _ = de.Write(c2p[off : off+32<<10])
+			_, _ = pe.Write(p2c[off : off+32<<10])
+			wait()
+		}
+		for i := 0; i < 64; i++ { // slow readers, a few KiB at a time
+			bufP, bufC := make([]byte, 24<<10), make([]byte, 40<<10)
+			_ = pe.SetReadDeadline(time.Now().Add(time.Millisecond))
+			if n, _ := pe.Read(bufP); n > 0 {
+				gotP = append(gotP, bufP[:n]...)
+			}
+			_ = de.SetReadDeadline(time.Now().Add(time.Millisecond))
+			if n, _ := de.Read(bufC); n > 0 {
+				gotC = append(gotC, bufC[:n]...)
+			}
+			wait()
+		}
+		_ = pe.SetReadDeadline(time.Time{})
+		_ = de.SetReadDeadline(time.Time{})
+		de.SetLimit(0)
+		pe.SetLimit(0)
+		wait()
+		gotP = append(gotP, pe.Buffered()...)
+		gotC = append(gotC, de.Buffered()...)
+		obs = append(obs, Obs{"k": "duplex", "id": id, "c2p": bytes.Equal(gotP, c2p), "p2c": bytes.Equal(gotC, p2c), "nc2p": len(gotP), "np2c": len(gotC)})
 	case "CloseData":
 		id := toInt(a["id"])
 		if a["side"] == "peer" {
@@ -660,6 +706,11 @@ func (s *tcpSys) Check(e Edge, obs []Obs) []Mismatch {
 			}
 		case "todata":
 			todataExp = append(todataExp, x)
+		case "duplex":
+			o, ok := find(func(o Obs) bool { return o["k"] == "duplex" && toInt(o["id"]) == toInt(x["id"]) })
+			if !ok || o["c2p"] != true || o["p2c"] != true {
+				ms = append(ms, Mismatch{"tcp.pipe~", fmt.Sprintf("connection %v, 256 KiB each way under flow control: client->peer intact=%v (%v bytes), peer->client intact=%v (%v bytes)", x["id"], o["c2p"], o["nc2p"], o["p2c"], o["np2c"])})
+			}
 		case "closed":
 			if _, ok := find(func(o Obs) bool {
 				return o["k"] == "closed" && toInt(o["id"]) == toInt(x["id"]) && o["what"] == x["what"]
